@@ -202,6 +202,42 @@ theorem RS232Segment_decode_layout (td ec fl hi13 : Nat) (sync : List Nat) (data
 example := RS232Segment_decode_layout 1 2 3 0x1FFF [0xFE, 0xFF] [9, 8, 7] [] (by omega) (by omega) (by omega)
   (by simp) (by omega) (by simp) (by simp)
 
+/-- the typed fields of an RS-232 segment OBJECT through pack → unpack (what `decodedSeg .rs232 g` holds):
+    sync bytes and data come back; `block_status` comes back with its low three bits REPLACED by the number of
+    sync bytes and reduced to 16 bits (`pack` does `(block_status & 0xFFF8) + len(sync_bytes)`), so it is
+    preserved exactly when it fits 16 bits and its low three bits already are that count -/
+theorem RS232Segment_roundtrip_fields (g : Seg) (rest : Bytes) (h : Seg_WF g) (hk : g.kind = .rs232) :
+    ∃ b, (Seg.pack g).2 = .ok b ∧ (Seg.unpack (Seg.fresh .rs232) (b ++ rest)).2 = .ok rest ∧
+      (Seg.unpack (Seg.fresh .rs232) (b ++ rest)).1.sync_bytes = g.sync_bytes ∧
+      (Seg.unpack (Seg.fresh .rs232) (b ++ rest)).1.data = g.data ∧
+      (Seg.unpack (Seg.fresh .rs232) (b ++ rest)).1.block_status = g.block_status % 65536 / 8 * 8 + g.sync_bytes.length ∧
+      (g.block_status < 65536 → g.block_status % 8 = g.sync_bytes.length →
+        (Seg.unpack (Seg.fresh .rs232) (b ++ rest)).1.block_status = g.block_status) := by
+  obtain ⟨h7, h8⟩ := h.2.2.2.2.1 hk
+  have heff : effPayload g = dataRS232 (g.block_status % 65536 / 8) g.sync_bytes g.data := by
+    simp [effPayload, hk, dataRS232, wordsC, Code.size]
+  have hty := unpackRS232_eq (withBase (Seg.fresh .rs232) g.timedelta g.errorcode g.flags (effPayload g))
+    (g.block_status % 65536 / 8) g.sync_bytes g.data heff (by omega) h7 h8
+  have hok : TypedOK .rs232 g := by
+    simp only [TypedOK, typedUnpack]; rw [hty]
+  have hd : decodedSeg .rs232 g = { withBase (Seg.fresh .rs232) g.timedelta g.errorcode g.flags (effPayload g) with
+      block_status := g.block_status % 65536 / 8 * 8 + g.sync_bytes.length, sync_bytes := g.sync_bytes, data := g.data } := by
+    simp only [decodedSeg, typedUnpack]
+    show (Seg.unpackRS232 _).1 = _
+    rw [hty]
+  refine ⟨segBytes g, by rw [Seg_pack_eq g h], ?_⟩
+  rw [Seg_unpack_eq .rs232 g rest h hok, hd]
+  refine ⟨rfl, rfl, rfl, rfl, ?_⟩
+  intro h1 h2
+  show g.block_status % 65536 / 8 * 8 + g.sync_bytes.length = g.block_status
+  omega
+/-- joint witness: an RS-232 object whose status word has all upper bits set and whose low three bits (7) are NOT
+    the sync count (2) — well-formed; its status word comes back as 0xFFFA -/
+example : Seg_WF { Seg.fresh .rs232 with block_status := 0xFFFF, sync_bytes := [1, 2], data := [9] } ∧
+    ({ Seg.fresh .rs232 with block_status := 0xFFFF, sync_bytes := [1, 2], data := [9] } : Seg).kind = .rs232 ∧
+    0xFFFF % 65536 / 8 * 8 + ([1, 2] : List Nat).length = 0xFFFA :=
+  ⟨by simp [Seg_WF, Seg.fresh, effPayload], rfl, by decide⟩
+
 /-! ### NPD packets -/
 
 /-- `NPD.unpack` builds the segment class `NPD_DT` gives for the data type, and `NPDSegment` for any other -/
